@@ -92,7 +92,10 @@ def grep_gate():
             if not f.endswith(".v"):
                 continue
             p = os.path.join(root, f)
-            txt = open(p).read()
+            try:
+                txt = open(p).read()
+            except OSError:
+                continue        # a temporary Gen file of a concurrent run
             # strip comments (non nested is enough for our files)
             txt2 = re.sub(r"\(\*.*?\*\)", "", txt, flags=re.S)
             for m in pat.finditer(txt2):
